@@ -85,4 +85,21 @@ ReverseNoop(st) == st.kind # "vec" =>
             a2 == Apply(a1.st, o2) b2 == Apply(b1.st, o2)
             a3 == Apply(a2.st, o3) b3 == Apply(b2.st, o3)
         IN a1.res = b1.res /\ a2.res = b2.res /\ a3.res = b3.res /\ Mirror(a3.st, b3.st)
+
+(***************************************************************************)
+(* Iterator and callback adapters.                                           *)
+(* An iterator source is a sequence over words and NONE (= 0): a source that *)
+(* is not fused may yield NONE and later yield words again.  The adapter     *)
+(* must make end-of-data sticky: [src, done].                                *)
+(***************************************************************************)
+NONE == 0
+IterSt(s, d) == [src |-> s, done |-> d]
+IterRead(st) == IF st.done \/ st.src = <<>> THEN [res |-> EOF_, st |-> IterSt(st.src, TRUE)]
+                ELSE IF st.src[1] = NONE THEN [res |-> EOF_, st |-> IterSt(Tail(st.src), TRUE)]
+                ELSE [res |-> st.src[1], st |-> IterSt(Tail(st.src), FALSE)]
+RECURSIVE IterReads(_, _)
+IterReads(st, n) == IF n = 0 THEN <<>> ELSE <<IterRead(st).res>> \o IterReads(IterRead(st).st, n - 1)
+IterSticky(st) == LET rs == IterReads(st, Len(st.src) + 2) IN \A i, j \in 1..Len(rs) : (i < j /\ rs[i] = EOF_) => rs[j] = EOF_
+\* callback sink with a capacity: writes beyond it fail and store nothing
+CbWrite(sink, cap, w) == IF Len(sink) < cap THEN [res |-> OK, sink |-> Append(sink, w)] ELSE [res |-> FULL, sink |-> sink]
 =============================================================================
